@@ -15,7 +15,8 @@ EXPLANATION = (
     "R0 (shared with C01.R2/R3): every reaction adds the identical k*prod(y) monomial once per product occurrence and subtracts "
     "it once per reactant occurrence, unconditionally -- so sum_i w_i*ydot_i = sum_react k*prod(y)*(sum_products w - sum_reactants w), "
     "which vanishes for any weight w (element count, charge) a balanced reaction preserves; no species is dropped from a reactant / product "
-    "list for being falsy (Species defines no __bool__/__len__). R1 GetElementAbund sums "
+    "list for being falsy (Species defines no __bool__/__len__), by the gate Component._create_species (None only for empty names and exact "
+    "members of the known pseudo-elements) or by code editing a reaction's lists in place after construction (C01.R6 / C01.R12). R1 GetElementAbund sums "
     "count(spec, element)*y[IDX_spec] over the same unfiltered network.species, guarded by the IDX_ELEM_ macro of the loop's own "
     "element, exactly as the macro header defines it. R2 every way two species can be identified (each disjunct of Species.__eq__) "
     "forces equal composition and charge: same name, or ice with equal basename+charge+group, or grains (no elements) with equal "
@@ -49,6 +50,10 @@ def check(ctx):
     _r2(ctx)
     # a species is never dropped from a reactant / product list for being "empty" (shared with C01.R6)
     c01.species_truthiness(ctx, "R0")
+    # ... nor by the gate every reactant / product name passes: Component._create_species drops pseudo-elements and nothing else (shared with C01.R6)
+    c01.pseudo_filter(ctx, "R0")
+    # ... nor by code that edits a reaction's reactant / product list in place after it was parsed (shared with C01.R12)
+    c01.reaction_lists_frozen(ctx, "R0")
     # R4: one ODE variable per species -- the identifier IDX_<alias> is an injective function of the species (rule shared with C09.R6)
     from . import c09
     ctx.absorb(lambda sub: c09._alias_rule(sub, package(sub.tree)), "R4", only=lambda o: o.key.startswith("Species.alias"))
@@ -103,11 +108,26 @@ def _r6(ctx):
             if readadd:
                 n += 1          # plays both roles: the accumulating write and the creating write
             ok = (f.kind == "augstore" and getattr(f, "op", None) == "Add") or (f.kind == "store" and absent) or readadd
+            if not ok and f.kind == "store":
+                # `try: T[e] += n` / `except KeyError: T[e] = n`: the handler runs exactly when the accumulating write found no entry
+                exc = [c for c, p in f.guards if isinstance(c, tuple) and c and c[0] == "except"]
+                rest = tuple(x for x in f.guards if not (isinstance(x[0], tuple) and x[0] and x[0][0] == "except"))
+                twin = any(g.kind == "augstore" and g.target == f.target and getattr(g, "op", None) == "Add" and g.index is not None and f.index is not None
+                           and simp(g.index) == simp(f.index) and tuple(g.guards) == rest and g.seq < f.seq for g in fl.facts)
+                if exc and all(c[1] in ("KeyError", "LookupError") for c in exc) and twin:
+                    ok = absent = True
+                elif exc or any("element_count" in c and not (("inself.element_count" in c and "notin" not in c and p is True)) for c, p in g):
+                    # a condition on the table that is not a plain membership test: when the entry is (re)written is not understood
+                    ctx.unrec("R6", f"element_count:{f.kind}", (SPECIES, f.line), f"the condition under which the entry is assigned is not understood: {[c for c, _ in g][-2:]}")
+                    continue
             ctx.check(ok, "R6", f"element_count:{f.kind}", (SPECIES, f.line),
                       "adds to the count" if f.kind == "augstore" or readadd else "creates the entry only for an element not counted yet" if ok else
                       "the count of an element is OVERWRITTEN when the element is met again: CH3OH gets H:1, the element totals and the renormalisation use wrong compositions",
                       expected="element_count[e] += n, or = n only when e is not in the table", found=f"{f.kind} guarded by {[c for c, _ in g][-1:]}")
-        elif f.kind == "call" and f.value and f.value[0] == "meth" and f.value[2] in ("update", "setdefault", "__setitem__") and show(f.value[1]).endswith("element_count"):
+        elif f.kind == "call" and f.value and f.value[0] == "meth" and f.value[2] == "setdefault" and show(f.value[1]).endswith("element_count"):
+            n += 1
+            ctx.ok("R6", "element_count:.setdefault()", (SPECIES, f.line), "setdefault creates the entry only for an element not counted yet (an existing count is kept)")
+        elif f.kind == "call" and f.value and f.value[0] == "meth" and f.value[2] in ("update", "__setitem__") and show(f.value[1]).endswith("element_count"):
             n += 1
             ctx.bad("R6", f"element_count:.{f.value[2]}()", (SPECIES, f.line),
                     f"element_count.{f.value[2]}(..) on a plain dict replaces the entry of an element met again instead of adding to it (dict.update is not Counter.update)",
@@ -193,10 +213,11 @@ def _r1(ctx):
         return
     outer = [it for it, off in sk.items_in(fn) if it[0] == "for" and J.path(J.unfilter(it[2])[0]) == "network.elements"]
     if len(outer) != 1:
-        (ctx.bad if outer else ctx.missing)("R1", f"{fn}:element-loop", (PHYS, 0), f"expected one loop over network.elements, found {len(outer)}")
+        # (several loops over the elements: which one selects the branch is not understood -- not evidence of a wrong sum)
+        (ctx.unrec if outer else ctx.missing)("R1", f"{fn}:element-loop", (PHYS, 0), f"expected one loop over network.elements, found {len(outer)}")
         return
     o = outer[0]
-    ctx.check(o[2] == ("attr", ("name", "network"), "elements") and o[7] is None, "R1", f"{fn}:element-loop", (PHYS, o[5]),
+    ctx.check(_unlist(o[2]) == ("attr", ("name", "network"), "elements") and o[7] is None, "R1", f"{fn}:element-loop", (PHYS, o[5]),
               "one branch per element of the unfiltered network.elements", found=J.show(o[2]))
     evar = o[1]
     # bindings made before the loop (function scope) stay visible inside it
@@ -220,24 +241,36 @@ def _r1(ctx):
             inner.append(p)
     if guard_expr is None or macro_uses != 1:
         ctx.unrec("R1", f"{fn}:guard", (PHYS, o[5]), "the branch of one element is not selected by `elemidx == IDX_ELEM_<..>`: shape not understood")
+    elif _key_canon(guard_expr) != _key_canon(FIRST_KEY(evar)) and not _about(guard_expr, {evar}):
+        ctx.unrec("R1", f"{fn}:guard", (PHYS, o[5]), f"the macro suffix of the branch guard is not computed from the loop's element alone: {J.show(guard_expr)[:120]}")
     else:
-        ctx.check(guard_expr == FIRST_KEY(evar), "R1", f"{fn}:guard", (PHYS, o[5]),
+        ctx.check(_key_canon(guard_expr) == _key_canon(FIRST_KEY(evar)), "R1", f"{fn}:guard", (PHYS, o[5]),
                   "branch guard is `elemidx == IDX_ELEM_<first key of this element's element_count>`",
                   expected=J.show(FIRST_KEY(evar)), found=J.show(guard_expr))
     # the macro header uses the same suffix expression over the same sequence, paired with loop.index0
-    mit = J.flatten(tree, MACROS, {})
+    # (a loop over `network.elements | map(attribute=..)` is the loop over network.elements with the attribute read in the body)
+    mit = J.unmap_loops(J.flatten(tree, MACROS, {}))
     ctx.saw(MACROS)
-    mloops = [it for it, st in J.walk_items(mit) if it[0] == "for" and J.path(it[2]) == "network.elements"]
-    okm = False
-    foundm = None
-    if len(mloops) == 1:
+    mloops = [it for it, st in J.walk_items(mit) if it[0] == "for" and J.path(J.unfilter(it[2])[0]) == "network.elements"
+              and any(p_[0] == "lit" and "IDX_ELEM_" in p_[1] for p_ in J.squeeze(J.printed(tree, it[3], {})))]
+    if len(mloops) != 1:
+        (ctx.unrec if mloops else ctx.missing)("R1", "macros:IDX_ELEM", (MACROS, 0), f"expected one loop over network.elements defining IDX_ELEM_ macros in the header, found {len(mloops)}")
+    else:
         ml = mloops[0]
-        got = J.squeeze(J.printed(tree, ml[3], {}))
-        want = [("lit", "#define IDX_ELEM_"), ("val", FIRST_KEY(ml[1])), ("lit", " "), ("val", ("attr", ("name", "loop"), "index0"))]
+        # (`%d` / `{:d}` of the loop counter prints the counter)
+        got = [("val", _key_canon(p_[-1])) if p_[0] == "val" or (p_[0] == "fmt" and p_[1] in ("d", "i")) else p_ for p_ in J.squeeze(J.printed(tree, ml[3], {}))]
+        want = [("lit", "#define IDX_ELEM_"), ("val", _key_canon(FIRST_KEY(ml[1]))), ("lit", " "), ("val", ("attr", ("name", "loop"), "index0"))]
         okm = got == want and ml[7] is None and ml[2] == ("attr", ("name", "network"), "elements")
         foundm = " ".join(p[1] if p[0] == "lit" else "{{ " + J.show(p[-1]) + " }}" if p[0] != "ctl" else "{% .. %}" for p in got)
-    ctx.check(okm, "R1", "macros:IDX_ELEM", (MACROS, mloops[0][5] if mloops else 0),
-              "the header defines IDX_ELEM_<first key> = loop.index0 over the same network.elements", found=foundm)
+        # wrong needs a header line of the understood form `#define IDX_ELEM_<expr of the element> <expr of the loop counter>` over
+        # a filtered / other sequence or with another key or counter; any other layout is a header that is not understood
+        shape = len(got) == 4 and [p_[0] for p_ in got] == ["lit", "val", "lit", "val"] and got[0] == want[0] and got[2] == want[2] \
+            and _about(got[1][1], {ml[1]}) and _about(got[3][1], {("name", "loop")})
+        if not okm and not shape:
+            ctx.unrec("R1", "macros:IDX_ELEM", (MACROS, ml[5]), f"the IDX_ELEM_ lines of the header are not of the form `#define IDX_ELEM_<key> <counter>`: {foundm[:160]}")
+        else:
+            ctx.check(okm, "R1", "macros:IDX_ELEM", (MACROS, ml[5]),
+                      "the header defines IDX_ELEM_<first key> = loop.index0 over the same network.elements", found=foundm)
     if not inner:
         ctx.missing("R1", f"{fn}:species-loop", (PHYS, o[5]), "no loop over the species inside the element branch")
         return
@@ -254,9 +287,13 @@ def _r1(ctx):
         for t, seq in list(zip(it[1][1], itx[2]))[1:]:
             b2, ex = J.elementwise(seq, svar)
             if b2 != base:
-                ctx.bad("R1", f"{fn}:species-loop", (PHYS, it[5]),
-                        "the species and the abundance symbols paired by zip() do not come from the same sequence",
-                        expected=f"zip({J.show(base)}, {J.show(base)} | map(..))", found=J.show(itx))
+                # wrong when both are recognisably views of ONE list of which one side is filtered / re-ordered; a second sequence
+                # that is not understood as a map over anything is not evidence
+                same_root = J.unfilter(b2)[0] == J.unfilter(base)[0] and J.path(J.unfilter(base)[0]) is not None
+                (ctx.bad if same_root else ctx.unrec)("R1", f"{fn}:species-loop", (PHYS, it[5]),
+                        "the species and the abundance symbols paired by zip() do not come from the same sequence" if same_root else
+                        f"how the abundance symbols paired by zip() derive from the species list is not understood: {J.show(seq)[:120]}",
+                        **({"expected": f"zip({J.show(base)}, {J.show(base)} | map(..))", "found": J.show(itx)} if same_root else {}))
                 return
             env2[t[1]] = ex
     elif it[1][0] == "name":
@@ -264,6 +301,7 @@ def _r1(ctx):
     else:
         ctx.unrec("R1", f"{fn}:species-loop", (PHYS, it[5]), f"loop over {J.show(itx)} binding {J.show(it[1])}: shape not understood")
         return
+    base = _unlist(base)
     if base != SPECIES_SEQ and J.path(J.unfilter(base)[0]) != "network.species":
         ctx.unrec("R1", f"{fn}:species-loop", (PHYS, it[5]), f"the sum ranges over {J.show(base)}, not recognisably the species list")
         return
@@ -296,16 +334,73 @@ def _r1(ctx):
     ab = [("lit", "*y[IDX_"), ("val", ("attr", svar, "alias")), ("lit", "] + ")]
     ok = len(got) == 4 and got[0][0] in ("fmt", "val") and got[0][-1] in counts and got[1:] == ab \
         and (got[0][0] == "val" or re.fullmatch(r"\.\d+[fe]|[eg]", got[0][1]) is not None)
-    ctx.check(ok, "R1", f"{fn}:term", (PHYS, x[2]),
-              "each term is <count of this element in this species> * <this species' abundance> + ",
-              expected=f"format({J.show(natom)}) ~ '*y[IDX_' ~ {J.show(svar)}.alias ~ '] + '",
-              found=" ~ ".join(repr(p[1]) if p[0] == "lit" else J.show(p[-1]) for p in got))
+    # wrong needs a term whose every printed value is computed from the loop's species and element alone (another count, another
+    # symbol, other literal text); a value produced by something the analysis does not read (a macro, a filter of naunet's own, a
+    # variable bound elsewhere) is a term that is not understood
+    if not ok and not all(p_[0] == "lit" or _about(p_[-1], {svar, evar}, plain_filters=True) for p_ in got):
+        ctx.unrec("R1", f"{fn}:term", (PHYS, x[2]), "the printed term is not reconstructible as <count> * <abundance symbol>: "
+                  + " ~ ".join(repr(p[1]) if p[0] == "lit" else J.show(p[-1]) for p in got)[:200])
+    else:
+        ctx.check(ok, "R1", f"{fn}:term", (PHYS, x[2]),
+                  "each term is <count of this element in this species> * <this species' abundance> + ",
+                  expected=f"format({J.show(natom)}) ~ '*y[IDX_' ~ {J.show(svar)}.alias ~ '] + '",
+                  found=" ~ ".join(repr(p[1]) if p[0] == "lit" else J.show(p[-1]) for p in got))
     tests = loop_filter + [(g[0], J.subst(J.inline_macros(tree, PHYS, g[1]), g[2])) for g in guards]
     def conj(t):
         return conj(t[1]) + conj(t[2]) if t[0] == "and" else [t]          # `if a and b` is `if a` + `if b`
     gok = bool(tests) and all(k == "if+" and all(c in present for c in conj(t)) for k, t in tests)
-    ctx.check(gok, "R1", f"{fn}:term-guard", (PHYS, x[2]), "a term is skipped only when the count is zero/absent",
-              found="; ".join(("" if k == "if+" else "not ") + J.show(t) for k, t in tests))
+    if not gok and tests and not all(_about(t, {svar, evar}, plain_filters=True) for k, t in tests):
+        ctx.unrec("R1", f"{fn}:term-guard", (PHYS, x[2]), "the condition under which a term is printed is not a test of the loop's species and element alone: "
+                  + "; ".join(("" if k == "if+" else "not ") + J.show(t) for k, t in tests)[:200])
+    else:
+        ctx.check(gok, "R1", f"{fn}:term-guard", (PHYS, x[2]), "a term is skipped only when the count is zero/absent",
+                  found="; ".join(("" if k == "if+" else "not ") + J.show(t) for k, t in tests))
+
+
+_PLAIN_FILTERS = {"first", "last", "list", "length", "count", "int", "float", "abs", "string", "default", "d", "round", "upper", "lower"}
+
+
+def _about(e, names, plain_filters=False) -> bool:
+    """the template expression reads nothing but the given loop variables (any attribute / item / method of them) and constants:
+    no other variable, no macro or global function call, (plain_filters) no filter beyond Jinja's value-preserving builtins"""
+    names = {n[1] if isinstance(n, tuple) else n for n in names}
+    for x in J._subterms(e):
+        if not isinstance(x, tuple) or not x or not isinstance(x[0], str):
+            continue
+        if x[0] == "name" and x[1] not in names:
+            return False
+        if x[0] == "call" and x[1][0] != "attr":
+            return False
+        if plain_filters and x[0] == "filter" and x[1] not in _PLAIN_FILTERS:
+            return False
+        if x[0] in ("macrocall", "unknown", "test") and x[0] != "test":
+            return False
+    return True
+
+
+def _unlist(e):
+    """`S | list` visits the items of S in order"""
+    while isinstance(e, tuple) and e and e[0] == "filter" and e[1] == "list" and not e[3] and not e[4]:
+        e = e[2]
+    return e
+
+
+def _key_canon(e):
+    """`d.keys() | first`, `d | first`, `d | list | first`, `d.keys() | list | first` all name the first key of the dict d"""
+    if not isinstance(e, tuple) or not e:
+        return e
+    e = tuple(_key_canon(x) if isinstance(x, tuple) else x for x in e)
+    if e[0] == "filter" and e[1] in ("first", "last") and not e[3] and not e[4]:
+        x = e[2]
+        for _ in range(4):
+            if x[0] == "filter" and x[1] == "list" and not x[3] and not x[4]:
+                x = x[2]
+            elif x[0] == "call" and x[1][0] == "attr" and x[1][2] == "keys" and not x[2] and not x[3]:
+                x = x[1][1]
+            else:
+                break
+        return ("filter", e[1], x, (), ())
+    return e
 
 
 ALLOWED = {
@@ -328,6 +423,7 @@ def _r2(ctx):
     for p in probs:
         ctx.unrec("R2", "Species.__eq__", (SPECIES, fn.lineno), p)
     ctx.floor("R2", "disjuncts of Species.__eq__", len(disj), 3, (SPECIES, fn.lineno))
+    unread = bool(probs) or len(disj) < 3
     for d in disj:
         lits = frozenset(d)
         key = "Species.__eq__:" + " & ".join(f"{k}:{v}" if len(l) == 2 else f"{l[0]}:{l[2]}" for l in sorted(d) for k, v in [l[:2]])
@@ -336,11 +432,15 @@ def _r2(ctx):
             continue
         eqs = {l[1] for l in d if l[0] == "eq"}
         both = {l[1] for l in d if l[0] == "both"}
-        other = [l for l in d if l[0] not in ("eq", "both")]
-        if other:
-            ctx.bad("R2", key, (SPECIES, fn.lineno),
-                    "species are identified by a comparison that does not determine composition and charge: " + "; ".join(str(l[-1]) for l in other),
-                    expected="self.X == o.X on composition-determining attributes", found=str(sorted(d)))
+        # literals that are not `self.X == o.X` / `self.X and o.X` can only narrow the disjunct: it is judged by the equalities it
+        # contains; when those do not force equal composition, a literal the analysis cannot read (a call, a comparison of two
+        # different expressions) might -- that is "not understood", while a disjunct made of readable literals only is wrong
+        other = [l for l in d if l[0] == "cmp"]
+        forced = "name" in eqs or ("is_surface" in both and {"basename", "charge"} <= eqs) or ("is_grain" in both and {"grain_group", "charge"} <= eqs)
+        if other and not forced:
+            ctx.unrec("R2", key, (SPECIES, fn.lineno),
+                      "species are identified by a comparison the analysis cannot read: " + "; ".join(str(l[-1]) for l in other)[:200])
+            unread = True
             continue
         if "name" in eqs:
             ctx.ok("R2", key, (SPECIES, fn.lineno), "includes equal names")
@@ -358,11 +458,19 @@ def _r2(ctx):
     ctx.saw(SPECIES, "Species.__hash__")
     paths = hash_paths(hf, resolve=lambda name: pkg.method("Species", name))
     el = [p for p in paths if p[0] == "self.is_electron"]
-    ctx.check(len(el) == 1 and not el[0][1], "R3", "Species.__hash__:electron", (SPECIES, hf.lineno),
-              "all electron spellings hash to one constant (so e-/E/e share one slot of the species set)",
-              found="; ".join(f"{c}: {e}" for c, _, e in paths)[:160])
+    if not el:
+        # no return path of __hash__ is selected by `self.is_electron`: how electrons are hashed is not understood
+        ctx.unrec("R3", "Species.__hash__:electron", (SPECIES, hf.lineno), "no path of __hash__ is selected by self.is_electron: "
+                  + "; ".join(f"{c}: {e}" for c, _, e in paths)[:160])
+    else:
+        ctx.check(len(el) == 1 and not el[0][1], "R3", "Species.__hash__:electron", (SPECIES, hf.lineno),
+                  "all electron spellings hash to one constant (so e-/E/e share one slot of the species set)",
+                  found="; ".join(f"{c}: {e}" for c, _, e in paths)[:160])
     has_e = any(frozenset(d) == frozenset({("both", "is_electron")}) for d in disj)
-    ctx.check(has_e, "R3", "Species.__eq__:electron", (SPECIES, fn.lineno), "all electron spellings compare equal")
+    if not has_e and unread:
+        ctx.unrec("R3", "Species.__eq__:electron", (SPECIES, fn.lineno), "the equality method is not fully understood: whether two electrons compare equal is not decided")
+    else:
+        ctx.check(has_e, "R3", "Species.__eq__:electron", (SPECIES, fn.lineno), "all electron spellings compare equal")
     ie = method("is_electron")
     ctx.saw(SPECIES, "Species.is_electron")
     # constant folding of the predicate for the four spellings (no execution: a whitelisted expression evaluator over the AST)
@@ -480,6 +588,13 @@ MUTANTS += [
     {"name": "element-count-overwrite", "file": SPECIES, "old": "        if element in self.element_count.keys():\n            self.element_count[element] += count\n        else:\n            self.element_count[element] = count\n", "new": "        self.element_count[element] = count\n", "rules": ["R6"]},
     {"name": "cvode-fex-zeroes-exhausted", "file": "naunet/templates/cvode/src/naunet_fex.cpp.j2", "old": "#if ((NHEATPROCS || NCOOLPROCS) && NAUNET_DEBUG)\n    printf(\"Total heating/cooling rate", "new": "    for (int i = 0; i < NSPECIES; i++) {\n        if (y[i] <= 0.0 && ydot[i] < 0.0) ydot[i] = 0.0;\n    }\n#if ((NHEATPROCS || NCOOLPROCS) && NAUNET_DEBUG)\n    printf(\"Total heating/cooling rate", "rules": ["R5"]},
     {"name": "alias-strip-nonword", "file": SPECIES, "old": "        return self._alias\n\n    @alias.setter", "new": "        self._alias = re.sub(r'\\W', '', self._alias)\n        return self._alias\n\n    @alias.setter", "rules": ["R4"]},
+    {"name": "create-species-drops-lowercase-names", "file": "naunet/component.py", "old": "if species_name and species_name not in Species.known_pseudoelements():", "new": "if species_name and species_name not in Species.known_pseudoelements() and not species_name.islower():", "rules": ["R0"]},
+    {"name": "rate-builder-strips-grain-through-alias", "file": "naunet/grains/hh93grain.py", "old": "        [spec] = [s for s in reac.reactants if not s.is_grain]\n", "new": "        others = reac.reactants\n        others.remove(next(s for s in others if s.is_grain))\n        [spec] = others\n", "rules": ["R0"]},
+    {"name": "header-macro-last-key-printf", "file": MACROS, "old": "#define IDX_ELEM_{{ spec.element_count.keys() | first }} {{ loop.index0 }}", "new": "{{ \"#define IDX_ELEM_%s %d\" | format(spec.element_count | last, loop.index0) }}", "rules": ["R1"]},
+    {"name": "element-count-try-except-overwrites", "file": SPECIES, "old": "        if element in self.element_count.keys():\n            self.element_count[element] += count\n        else:\n            self.element_count[element] = count\n", "new": "        try:\n            self.element_count[element] = count\n        except KeyError:\n            self.element_count[element] += count\n", "rules": ["R6"]},
+    {"name": "eq-any-of-generator-ice-without-charge", "edits": [
+        {"file": SPECIES, "old": '            return (\n                (self.is_electron and o.is_electron)\n                or (\n                    self.is_grain\n                    and o.is_grain\n                    and self.grain_group == o.grain_group\n                    and self.charge == o.charge\n                )\n                or (\n                    self.is_surface\n                    and o.is_surface\n                    and self.surface_group == o.surface_group\n                    and self.charge == o.charge\n                    and self.basename == o.basename\n                )\n                or self.name == o.name\n            )\n', "new": '            return any(self._same(o))\n'},
+        {"file": SPECIES, "old": "    def __hash__(self) -> int:\n", "new": '    def _same(self, o):\n        yield self.is_electron and o.is_electron\n        yield self.is_grain and o.is_grain and self.grain_group == o.grain_group and self.charge == o.charge\n        yield self.is_surface and o.is_surface and self.surface_group == o.surface_group and self.basename == o.basename\n        yield self.name == o.name\n\n    def __hash__(self) -> int:\n'}], "rules": ["R2"]},
     {"name": "alias-single-M", "file": SPECIES, "old": 'else "M" * abs(self.charge),', "new": 'else "M",', "rules": ["R4"]},
 ]
 BENIGN = [
@@ -509,5 +624,14 @@ BENIGN = [
     {"name": "term-guard-membership", "edits": [
         {"file": PHYS, "old": "{% set natom = spec.element_count.get(elemname) -%}", "new": "{% set natom = spec.element_count.get(elemname, 0) -%}"},
         {"file": PHYS, "old": "               {% if natom -%}\n", "new": "               {% if elemname in spec.element_count and natom > 0 -%}\n"}]},
+    {"name": "element-count-try-except", "file": SPECIES, "old": "        if element in self.element_count.keys():\n            self.element_count[element] += count\n        else:\n            self.element_count[element] = count\n", "new": "        try:\n            self.element_count[element] += count\n        except KeyError:\n            self.element_count[element] = count\n"},
+    {"name": "element-count-setdefault", "file": SPECIES, "old": "        if element in self.element_count.keys():\n            self.element_count[element] += count\n        else:\n            self.element_count[element] = count\n", "new": "        self.element_count.setdefault(element, 0)\n        self.element_count[element] += count\n"},
+    {"name": "term-printf-format", "file": PHYS, "old": '{{ "{:.1f}".format(natom) ~ "*" ~ ab ~ " + "}}', "new": '{{ "%.1f*%s + " | format(natom, ab) }}'},
+    {"name": "abund-symbols-materialised", "file": PHYS, "old": '{% set specabund = network.species | map(attribute="alias") | map("prefix", "y[IDX_") | map("suffix", "]") -%}', "new": '{% set specabund = network.species | map(attribute="alias") | map("prefix", "y[IDX_") | map("suffix", "]") | list -%}', "count": 1},
+    {"name": "header-loop-over-mapped-counts", "file": MACROS, "old": "{% for spec in network.elements %}\n#define IDX_ELEM_{{ spec.element_count.keys() | first }} {{ loop.index0 }}", "new": "{% for counts in network.elements | map(attribute=\"element_count\") %}\n{{ \"#define IDX_ELEM_\" ~ (counts | first) ~ \" \" ~ loop.index0 }}"},
+    {"name": "eq-any-of-generator", "edits": [
+        {"file": SPECIES, "old": '            return (\n                (self.is_electron and o.is_electron)\n                or (\n                    self.is_grain\n                    and o.is_grain\n                    and self.grain_group == o.grain_group\n                    and self.charge == o.charge\n                )\n                or (\n                    self.is_surface\n                    and o.is_surface\n                    and self.surface_group == o.surface_group\n                    and self.charge == o.charge\n                    and self.basename == o.basename\n                )\n                or self.name == o.name\n            )\n', "new": '            return any(self._same(o))\n'},
+        {"file": SPECIES, "old": "    def __hash__(self) -> int:\n", "new": '    def _same(self, o):\n        yield self.is_electron and o.is_electron\n        yield self.is_grain and o.is_grain and self.grain_group == o.grain_group and self.charge == o.charge\n        yield self.is_surface and o.is_surface and self.surface_group == o.surface_group and self.charge == o.charge and self.basename == o.basename\n        yield self.name == o.name\n\n    def __hash__(self) -> int:\n'}]},
+    {"name": "header-lines-by-macro", "file": MACROS, "old": "{% for spec in network.elements %}\n#define IDX_ELEM_{{ spec.element_count.keys() | first }} {{ loop.index0 }}", "new": "{% macro define_index(label, slot) %}#define IDX_{{ label }} {{ slot }}{% endmacro %}\n{% for spec in network.elements %}\n{{ define_index(\"ELEM_\" ~ (spec.element_count | first), loop.index0) }}"},
     {"name": "eq-disjuncts-reordered", "file": SPECIES, "old": "                (self.is_electron and o.is_electron)\n                or (", "new": "                self.name == o.name\n                or (self.is_electron and o.is_electron)\n                or ("},
 ]
